@@ -302,6 +302,17 @@ def build_quad(e, n, cplx, shapes):
         old = float(o.scale)
         o.set_scale(e[1])
         return o, [(a / old * e[1], w, y, M) for a, w, y, M in t]
+    if k == "used":
+        # the same object after it has been USED (value, gradient, Hessian, prox evaluated once): the denotation is unchanged,
+        # and copies derived from it afterwards (c * L, L / c) must denote the rescaled functional
+        o, t = build_quad(e[1], n, cplx, shapes)
+        x1 = snp.ones((n,), dtype=np.complex128 if cplx else np.float64)
+        o(x1), o.grad(x1)
+        if hasattr(o, "hessian"):
+            o.hessian(x1)
+        if getattr(o, "has_prox", False):
+            o.prox(x1, 0.5)
+        return o, t
     if k == "sum":
         o1, t1 = build_quad(e[1], n, cplx, shapes)
         o2, t2 = build_quad(e[2], n, cplx, shapes)
@@ -1571,6 +1582,9 @@ def gen_hess_case(rng):
         e = ["div", rng.choice([0.5, 2.0, -4.0]), leaf]
     elif r < 0.5:
         e = ["mul", dy_nz(rng, bits=1), ["rmul", dy_nz(rng, bits=1), leaf]]
+    elif r < 0.7:      # scaled copies of a loss that has already been used (call-history must not leak into the copy)
+        e = [["mul", dy_nz(rng, bits=1, lo=-3, hi=3), ["used", leaf]], ["div", rng.choice([0.5, 2.0, -4.0]), ["used", leaf]],
+             ["mul", dy_nz(rng, bits=1), ["used", ["rmul", dy_nz(rng, bits=1), ["used", leaf]]]]][rng.randrange(3)]
     return {"kind": "hessian", "cplx": cplx, "n": n, "shapes": [n], "expr": e,
             "x": rvec(rng, n, cplx), "d": rvec(rng, n, cplx), "u": rvec(rng, n, cplx)}
 
